@@ -47,7 +47,7 @@ def make_case(rc):
         elif via == 'cell':
             out = I.eval_formula('=%s(A1,B1)' % fn, {'A1': x, 'B1': n}, addr='H9')
         elif via == 'override':
-            out = I.eval_formula('=%s(A1,B1)' % fn, {'A1': 1, 'B1': 0}, addr='H9', overrides=[I.Cell(0, 0, 0, x), I.Cell(0, 1, 0, n)])
+            out = I.eval_formula('=%s(A1,B1)' % fn, {'A1': 1, 'B1': 0}, addr='H9', overrides=[I.Cell(0, 0, 0, x), I.Cell(0, 1, 0, n)], split=mant % 2 == 0)
         elif via == 'override_far':     # the operands are blank cells BEYOND the used range of the sheet; the overrides put values there
             out = I.eval_formula('=%s(K20,L21)' % fn, {'A1': 1}, addr='H9', overrides=[I.Cell(0, 10, 19, x), I.Cell(0, 11, 20, n)])
         else:   # literal number and literal digit count, either of them possibly written with a minus sign
